@@ -415,6 +415,7 @@ def run(ctx, name, kind, **kw):
                 rj.append(("jacobi", NT.jacobi, (t_, p_), nt.legendre(t_, p_)))
                 rj.append(("inverse_mod", NT.inverse_mod, (t_, p_), nt.inv(t_, p_)))
         S.reentrant_purity(ctx, S.codes_of(NT, {"square_root_mod_prime", "jacobi", "inverse_mod", "polynomial_reduce_mod", "polynomial_multiply_mod", "polynomial_exp_mod", "modular_exp"}), rj, rng, max(6, kw["runs"] // 6))
+        S.fault_purity(ctx, S.codes_of(NT, {"square_root_mod_prime", "jacobi", "inverse_mod", "polynomial_reduce_mod", "polynomial_multiply_mod", "polynomial_exp_mod", "modular_exp"}), rj, rng, max(6, kw["runs"] // 6))
     elif kind == "pyopt":
         # the same contracts with the interpreter's assert statements stripped (python -O): results must not depend on an assert's side effects
         import json
